@@ -21,6 +21,7 @@ func init() {
 			chanCapRule(r, "/iscp.Conn.upstreamCallAckCh", 1)
 			chanCapRule(r, "/iscp.Conn.replyCallChs", 1)
 			ruleC16E5(r)
+			ruleNameAgreement(r, "E7", "/iscp", "/wire")
 			ruleLockPairingFor(r, le, "E6", "lock pairing in the call correlation paths: every function touching the waiter tables releases their mutexes on every path", func(fn *ssa.Function) bool {
 				for _, a := range collectAccesses(fn) {
 					fk := fieldKey(a.Owner, a.Field)
@@ -273,4 +274,28 @@ func ruleC16E5(r *Run) {
 			}
 		}
 	}
+}
+
+// ruleNameAgreement: struct-to-struct copies use the same-named field when one exists.
+func ruleNameAgreement(r *Run, id string, pkgs ...string) {
+	r.Begin(id, "same-named fields are copied to each other: in a keyed struct literal, when the value is a plain field x.f and x's struct also has a field with the destination's name and f's type, the same-named field is the one used (a copy such as `Name: request.Type` hands the application or the broker another field's content); only plain data structs (all fields exported) are considered as sources", 1)
+	p := r.P
+	total := 0
+	for _, pp := range pkgs {
+		pk := p.ByPath[modPath+pp]
+		if pk == nil {
+			r.Undecided("package "+pp, "not loaded")
+			continue
+		}
+		n, bad := collectNameAgreement(pk)
+		total += n
+		seen := map[string]int{}
+		for _, b := range bad {
+			k := fmt.Sprintf("%s %s.%s <- %s.%s", b.Fn, tname(b.Dst), b.DstField, tname(b.Src), b.SrcField)
+			seen[k]++
+			r.Check(fmt.Sprintf("%s#%d", k, seen[k]), false, p.pos(b.Pos), b.Fn, fmt.Sprintf("%s.%s is filled from %s.%s although %s has a field %s of the same type", tname(b.Dst), b.DstField, tname(b.Src), b.SrcField, tname(b.Src), b.DstField))
+		}
+		r.Check("package "+pp, len(bad) == 0, "", pp, fmt.Sprintf("%d plain field-to-field copies examined, %d name mismatches", n, len(bad)))
+	}
+	r.Stat("field_copies_examined", total)
 }
